@@ -71,6 +71,7 @@ def acquisitions(fn):
         # guard locals: dest, then through unwrap-like wrappers and plain moves
         guards = {c.dest[0]}
         work = [c.dest[0]]
+        moved_out = {}          # guard local -> sites where its payload was moved into another guard local
         while work:
             l = work.pop()
             for site, kind, payload, o in fn.uses(l):
@@ -79,6 +80,15 @@ def acquisitions(fn):
                     if not payload["lhs"][1] and t not in guards:
                         guards.add(t)
                         work.append(t)
+                elif kind == "stmt" and payload["rv"]["k"] == "use" and o.get("k") == "move" and o["p"][1] and all(e.startswith(("d:", "f:")) for e in o["p"][1]) and any(e.startswith("d:") for e in o["p"][1]):
+                    # `let Occupied(entry) = map.entry(k) else {..}`: the variant's payload *is* the guard from here on; the
+                    # emptied enum value is dropped at the end of the statement without releasing anything
+                    t = payload["lhs"][0]
+                    if not payload["lhs"][1]:
+                        moved_out.setdefault(l, []).append(site)
+                        if t not in guards:
+                            guards.add(t)
+                            work.append(t)
                 elif kind.startswith("arg") and o.get("k") == "move":
                     cc = Call(fn, site.bb, payload)
                     if UNWRAP_RX.search(cc.callee or "") or cc.matches(r"dashmap::(mapref::entry::)?Entry::<'a, K, V(, S)?>::(or_default|or_insert|or_insert_with|or_try_insert_with|insert|insert_entry)$|dashmap::(mapref::entry::)?OccupiedEntry::<'a, K, V(, S)?>::into_ref$|dashmap::(mapref::entry::)?VacantEntry::<'a, K, V(, S)?>::(insert|insert_entry)$"):
@@ -92,6 +102,8 @@ def acquisitions(fn):
         for g in guards:
             for site, kind, payload, o in fn.uses(g):
                 if kind == "drop" and not payload["p"][1]:
+                    if any(fn.dominates(ms, site) for ms in moved_out.get(g, [])):
+                        continue        # the payload was moved out before: this drop releases nothing
                     rel.add(site)
                 elif kind.startswith("arg") and o.get("k") == "move" and not o["p"][1]:
                     cc = Call(fn, site.bb, payload)
